@@ -493,7 +493,7 @@ func (P *Prog) lookupType(name string, cur *types.Package) types.Type {
 			}
 		}
 		for path, p := range P.allPkgs {
-			if (path == pn || strings.HasSuffix(path, "/"+pn)) && p.Types != nil {
+			if p.Types != nil && (path == pn || strings.HasSuffix(path, "/"+pn) || p.Types.Name() == pn) {
 				if o := p.Types.Scope().Lookup(tn); o != nil {
 					return o.Type()
 				}
